@@ -9,6 +9,8 @@
    their names say and include view- and copy-producing block reshapes;
  * the snapshot comparison sees each kind of modification the property lists and
    does not flag a lazily filled cache;
+   (the second pass of ``members`` -- plotting members, members with arguments -- and the mask forms:
+   selftest/test_registry_members.py);
  * the C15 helpers (homogeneity degree, leaf comparison, unit expectation).
 """
 import os
